@@ -17,6 +17,7 @@ import operator
 from oslo_db import exception as db_exc
 from oslo_serialization import jsonutils
 from oslo_utils import encodeutils
+from oslo_utils import timeutils
 import webob
 
 from placement.db import constants as db_const
@@ -148,6 +149,9 @@ def _serialize_inventories(inventories, generation):
         last_modified = util.pick_last_modified(last_modified, inventory)
         inventories_dict[resource_class] = _serialize_inventory(
             inventory, generation=None)
+    # No inventories, no timestamps: like the other collections, call the
+    # empty one modified now.
+    last_modified = last_modified or timeutils.utcnow(with_timezone=True)
     return ({'resource_provider_generation': generation,
              'inventories': inventories_dict}, last_modified)
 
